@@ -8,7 +8,7 @@ uint8_t g_dcw, g_scw, g_mcw;
 ssize_t g_dx, g_dy, g_sx, g_sy, g_mx, g_my, g_ex, g_ey;
 uint64_t g_dr, g_dg, g_db, g_da, g_sr, g_sg, g_sb, g_sa, g_mr, g_mg, g_mb, g_ma, g_er, g_eg, g_eb, g_ea;
 #include "x_pixel.c"
-#define GH(T, n) { T in_##n; g_##n = in_##n; }
+#define GH(T, n) { T in_gh_##n; g_##n = in_gh_##n; }
 #define IN_D GH(ssize_t, dw) GH(ssize_t, dh) GH(bool, dalpha) GH(uint8_t, dcw) GH(ssize_t, dx) GH(ssize_t, dy) \
              GH(uint64_t, dr) GH(uint64_t, dg) GH(uint64_t, db) GH(uint64_t, da)
 void h_mem_write_pixel(void) { Image* self; IN_D ssize_t in_x, in_y; uint64_t in_r, in_g, in_b, in_a; Image_write_pixel(self, in_x, in_y, in_r, in_g, in_b, in_a); VERIF_REACH(); }
